@@ -84,12 +84,21 @@ func idOf(v []byte) string {
 	return ""
 }
 
+// world is the broker-side truth the harness keeps. It is guarded by a
+// channel lock: inside a synctest bubble a goroutine blocked on a sync mutex is
+// not durably blocked, so a holder sleeping in virtual time would deadlock the
+// bubble.
 type world struct {
 	clock atomic.Int64
-	mu    sync.RWMutex
+	mu    chanLock
 	t     map[string]*wtopic
 	names []string
 }
+
+type chanLock chan struct{}
+
+func (l chanLock) Lock()   { l <- struct{}{} }
+func (l chanLock) Unlock() { <-l }
 
 func (w *world) tick() int64 { return w.clock.Add(1) }
 
@@ -110,7 +119,7 @@ func (w *world) livePartitions() []tp {
 
 func Run(plan Plan, watchdog, liveBound time.Duration) (res *Result) {
 	res = &Result{Plan: plan, Logs: map[tp]map[int64]string{}}
-	w := &world{t: map[string]*wtopic{}}
+	w := &world{t: map[string]*wtopic{}, mu: make(chanLock, 1)}
 	res.Topics = w.t
 	inconcl := func(f string, a ...any) { res.Inconcl = append(res.Inconcl, fmt.Sprintf(f, a...)) }
 	deadline := time.Now().Add(watchdog)
@@ -206,7 +215,7 @@ func Run(plan Plan, watchdog, liveBound time.Duration) (res *Result) {
 		defer bgWG.Done()
 		prng := rand.New(rand.NewPCG(plan.Seed, 100))
 		for i := 0; i < plan.BgRecords && !stopBg.Load(); i++ {
-			w.mu.RLock()
+			w.mu.Lock()
 			if lp := w.livePartitions(); len(lp) > 0 {
 				prod.Produce(bg, mkRec(1, lp[prng.IntN(len(lp))]), func(_ *kgo.Record, err error) {
 					if err == nil {
@@ -214,7 +223,7 @@ func Run(plan Plan, watchdog, liveBound time.Duration) (res *Result) {
 					}
 				})
 			}
-			w.mu.RUnlock()
+			w.mu.Unlock()
 			time.Sleep(time.Duration(200+prng.IntN(2500)) * time.Microsecond)
 		}
 	}()
@@ -515,9 +524,9 @@ func Run(plan Plan, watchdog, liveBound time.Duration) (res *Result) {
 			break
 		}
 		// every partition that exists now receives more records, new ones first
-		w.mu.RLock()
+		w.mu.Lock()
 		lp := w.livePartitions()
-		w.mu.RUnlock()
+		w.mu.Unlock()
 		if !burst(newParts, plan.Burst) || !burst(lp, 1) {
 			inconcl("producer could not deliver a burst before the watchdog")
 			failed = true
